@@ -1,17 +1,9 @@
-(** * general_threaded: grace-period safety of the reclamation thread - what is proved and what is not.
-
-    [gpt_no_dispose_inside_old_reader_statement] is the full statement.  NOT proved: that the general_threaded model
-    maintains the product of the gp invariant and the epoch invariant across the hand-off to the reclamation thread
-    (the mailbox transfer of (epoch, grace-period marker) and the quit mode of Destruct need a third and fourth
-    invariant component; the analogous product is proved for general_buffered / signal_buffered in RcuBufProd).
-    Proved here ([gpt_no_dispose_inside_old_reader_partial]): the two facts that carry the argument, for ANY state that
-    satisfies the gp invariant and the epoch invariant -
-      (1) a completed grace period with start marker i ([WFin i]) closes every read-side section opened before i,
-          and this is a property of the trace alone, stable under every extension of the trace (so it survives the
-          hand-off to another thread);
-      (2) the epoch lemma: a buffer entry whose epoch is <= the epoch n returned by the caller's fetch_add at marker i
-          was retired before i; hence every reader that was inside when it was retired has left: disposing it - now or
-          later, by any thread - satisfies [dispose_safe]. *)
+(** * general_threaded: the two facts that carry the grace-period argument across the hand-off to the reclamation thread.
+    [closed tr i] - every read-side section opened before position i has been left - is a property of the trace alone and
+    stable under every extension of the trace; a completed grace period with marker i establishes it ([wfin_closed]).
+    Together with the epoch lemma (LV.Proofs.RcuBufEpoch) it makes the disposal of an entry of an older epoch safe at any
+    later time, by any thread ([gpt_no_dispose_inside_old_reader_partial], kept as a lemma).  The full theorem
+    [gpt_no_dispose_inside_old_reader_statement] is proved in LV.Proofs.RcuThrProd (gpt_dispose_safe_all). *)
 From Coq Require Import ZArith List String Bool Lia PeanoNat.
 From LV Require Import Base.Conc Base.Events Model.RcuGp Model.RcuBuf Model.RcuThreaded Proofs.RcuGpInv Proofs.RcuBufEpoch.
 Import ListNotations.
